@@ -135,15 +135,18 @@ def classify(asm, run, unit):
         if item is None:
             item = enclosing_fn(asm, (primary or use)['line_start']) or '<template>'
         tag = mt.get('tag')
-        props = list(mt.get('props') or [])
-        if not tag:
-            props = list(where_mt.get('props') or props)
-        # a failed precondition at a call site belongs to the caller as well
-        if 'precondition' in msg and primary is not None:
-            cprops = asm.meta[primary['line_start'] - 1].get('props') or []
-            for c in cprops:
-                if c not in props:
-                    props.append(c)
+        if tag:
+            # a labelled clause: the label says which properties own it
+            props = list(mt.get('props') or [])
+        elif where_mt.get('origin') == 'code':
+            # an unlabelled obligation that arises at an executable statement of the extracted code:
+            # an index / unwrap / unreachable! / overflow site or an unlabelled callee precondition -
+            # the panic-freedom claim (C07) when the function is listed for it
+            props = ['C07'] if 'C07' in (where_mt.get('props') or []) else []
+        else:
+            # an unlabelled proof-internal obligation (auxiliary invariant, lemma precondition, ghost
+            # assert): a failed proof without a named clause is UNDECIDED, not a violation
+            props = []
         kind = re.sub(r'[^a-z]+', '-', msg.lower()).strip('-')[:60]
         text = asm.lines[ln - 1].strip()
         text = re.sub(r'\s*//#.*$', '', text)
